@@ -356,8 +356,9 @@ package service
 //@ pred matches(e *list.Element, ip netip.Addr) := ip != 0 && ip == as(e.Value, "*service.CipherEntry").lastClientIP
 
 //@ func matchesIP
-//@   props C01 C18
+//@   props C01 C18 C19
 //@   params e clientIP
+//@   under-lock cipherList.mu read
 //@   requires validElem(e)
 //@   ensures result == matches(e, clientIP)
 
